@@ -26,7 +26,7 @@ LEVEL_TEXT = (
     "is derived from independent shadow instances of the candidate readers, so the check is relative to 'the selected reader' as the "
     "property is; clean streams are also compared with what the meter model sent. Sampling, not proof."
 )
-RUNS = {"quick": 16000, "thorough": 500000}
+RUNS = {"quick": 36000, "thorough": 500000}
 CHUNK = {"quick": 200, "thorough": 1000}
 BUDGET_S = {"quick": 100, "thorough": 2400}
 RULE = (
@@ -41,7 +41,7 @@ ASSUMPTIONS = [
     "an exception escaping data_received on a noisy stream makes the run void (C14); on a clean stream it is a violation (promised messages lost)",
     "the absolute clean-stream oracle is used only with candidate lists in which exactly one reader matches the stream's type and configuration",
 ]
-MUST_FIRE = {"quick": ["selected_second_candidate", "invalid_withheld", "clean_absolute_checked", "empty_candidate_list", "selection_after_first_chunk"], "thorough": ["selected_second_candidate", "invalid_withheld", "clean_absolute_checked", "empty_candidate_list", "selection_after_first_chunk"]}
+MUST_FIRE = {"quick": ["valid_message_with_empty_payload", "selected_second_candidate", "invalid_withheld", "clean_absolute_checked", "empty_candidate_list", "selection_after_first_chunk"], "thorough": ["selected_second_candidate", "invalid_withheld", "clean_absolute_checked", "empty_candidate_list", "selection_after_first_chunk"]}
 
 
 def _cand_lists(rng, cfg):
@@ -59,7 +59,7 @@ def gen(rng, tier, index):
         stream = {"kind": kind, "c02": {"cfg": cfg, "items": sub["items"]}}
         cands = rng.choice([[["H"] + cfg], [["H"] + cfg, ["P"]], [["P"], ["H"] + cfg]])
     elif kind == "clean_p1":
-        specs = [p1_gen.readout_spec(rng, i, rng.choice(["empty", "small", "typical"])) for i in range(rng.choice([1, 2, 3, 6, 12]))]
+        specs = [p1_gen.readout_spec(rng, i if rng.random() < 0.6 else None, rng.choice(["empty", "small", "typical"])) for i in range(rng.choice([1, 2, 3, 6, 12]))]
         specs = [s for s in specs if p1_gen.well_formed(s)] or [p1_gen.readout_spec(rng, 0, "small")]
         stream = {"kind": kind, "c05": {"readouts": specs}}
         cands = rng.choice([[["P"]], [["H"] + cfg, ["P"]], [["P"], ["H"] + cfg], [["H", False, True], ["P"]]])
@@ -251,6 +251,8 @@ def execute(sc):
                                     exp.append(p)
                                 else:
                                     withheld += 1
+                                    if valid:
+                                        probes["valid_message_with_empty_payload"] = 1
                             else:
                                 exp.append((type(m).__name__, m.as_bytes, valid))
                     options.append((ci, exp, withheld, later))
